@@ -325,6 +325,62 @@ fn staking_requests_after_history() {
     witness("request_done");
 }
 
+/// execute_multi mixing staking, distribution and bank messages (all the other batches are wasm and bank
+/// only): after a history with an existing delegation and elapsed time, two messages in either order;
+/// an Err leaves every byte unchanged, an Ok returns two responses and implies both preconditions
+fn multi_with_staking_messages() {
+    use crate::stk::{Cfg, DtSel, Op, Stk, DENOM};
+    use cosmwasm_std::{DistributionMsg, StakingMsg};
+    const AMT: u128 = 1u128 << 32;
+    let mut w = Stk::new(Cfg::default());
+    for op in [Op::Delegate { d: 0, v: 0 }, Op::Advance { dt: DtSel::Sym(0, 400 * 86_400) }] {
+        if !w.apply(&op, AMT) {
+            return;
+        }
+    }
+    let (a, b) = (sym_u128("ms_a", 0, 2 * AMT), sym_u128("ms_b", 0, 1u128 << 51));
+    let d1 = w.dels[0].clone();
+    let kind = choose(3);
+    let staking: CosmosMsg = match kind {
+        0 => StakingMsg::Delegate { validator: w.vals[0].clone(), amount: coin(a, DENOM) }.into(),
+        1 => StakingMsg::Undelegate { validator: w.vals[0].clone(), amount: coin(a, DENOM) }.into(),
+        _ => DistributionMsg::WithdrawDelegatorReward { validator: w.vals[0].clone() }.into(),
+    };
+    let bank: CosmosMsg = BankMsg::Send { to_address: w.dels[1].to_string(), amount: vec![coin(b, DENOM)] }.into();
+    let staking_first = choose(2) == 0;
+    let msgs = if staking_first { vec![staking, bank] } else { vec![bank, staking] };
+    let before = snapshot(&w.app);
+    let bal = w.bal[0];
+    let r = match catch(|| w.app.execute_multi(d1.clone(), msgs)) {
+        Ok(r) => r,
+        Err(p) => {
+            failure("no_panic", "panic", p);
+            return;
+        }
+    };
+    match r {
+        Err(_) => {
+            witness("staking_multi_err");
+            check_unchanged("err_leaves_every_byte_of_storage_unchanged", &w.app, &before);
+        }
+        Ok(rs) => {
+            witness("staking_multi_ok");
+            check_native("one_response_per_message_in_order", rs.len() == 2, || format!("{} responses", rs.len()));
+            // both messages took effect, each seeing the other's: the transfer is covered by what is left
+            check("ok_implies_transfer_positive", lt(k(0), v(b)));
+            if kind == 0 {
+                check("ok_implies_both_covered_by_the_balance", le(add(v(a), v(b)), bal));
+                let now = balance(&w.app, &d1, DENOM);
+                check("effects_of_both_messages_persisted", eq(v(now), sub(bal, add(v(a), v(b)))));
+            } else if kind == 1 {
+                check("ok_implies_undelegation_covered_by_the_stake", le(mul(v(a), k(crate::stk::E18)), w.stake[0][0]));
+            }
+            let got = balance(&w.app, &w.dels[1], DENOM);
+            check("effects_of_both_messages_persisted", eq(v(got), add(w.bal[1], v(b))));
+        }
+    }
+}
+
 /// the Executor helpers are thin wrappers: same atomicity
 fn helpers() {
     let mut t = top(2);
@@ -367,6 +423,7 @@ pub fn scenarios(tier: &str) -> Vec<Scenario> {
     }));
     v.push(Scenario::new("sudo_and_wasm_sudo", &["sudo_ok", "sudo_err"], sudo_atomic));
     v.push(Scenario::new("executor_helpers", &["helper_ok", "helper_err"], helpers));
+    v.push(Scenario::new("execute_multi_mixing_staking_and_bank_messages", &["staking_multi_ok", "staking_multi_err"], multi_with_staking_messages));
     v.push(Scenario::new(
         "staking_sudo_and_messages_failing_after_time_has_passed",
         &["request_done", "slash_err", "slash_ok", "undelegate_err", "redelegate_err", "withdraw_err", "foreign_denom_err"],
